@@ -8,8 +8,12 @@ cd /repo || exit 2
 if ! git diff --quiet; then echo "/repo has uncommitted changes"; exit 2; fi
 git apply /verif/seeded/$NAME/patch.diff || { echo "patch does not apply"; exit 3; }
 for P in "$@"; do
+  # the evidence file of the unchanged tree must survive this run on a changed tree
+  cp /verif/evidence/$P.json /tmp/seed_detect_evidence_$P.json 2>/dev/null
   /verif/bin/gowp check $P > /tmp/seed_detect_${NAME}_$P.log 2>&1
   rc=$?
+  cp /verif/evidence/$P.json /tmp/seed_detect_${NAME}_$P.evidence.json 2>/dev/null
+  cp /tmp/seed_detect_evidence_$P.json /verif/evidence/$P.json 2>/dev/null
   echo "seed=$NAME property=$P exit=$rc $(grep -c '^VIOLATION' /tmp/seed_detect_${NAME}_$P.log) violation lines; $(tail -1 /tmp/seed_detect_${NAME}_$P.log)"
   grep '^VIOLATION' /tmp/seed_detect_${NAME}_$P.log | head -3 | cut -c1-260
 done
